@@ -273,6 +273,7 @@ func runC08(tier string) int {
 		}
 		return ""
 	}})
+	cases = append(cases, runC08Shapes(c, tier, levels, &st)...) // family "shape": callee shapes of the value-argument part (c08_shapes.go)
 	c.Set("stats", st)
 	c.Sample(map[string]any{"case": cases[len(cases)/2].Desc, "key": cases[len(cases)/2].Key})
 	c.Sample(map[string]any{"case": cases[len(cases)-3].Desc, "key": cases[len(cases)-3].Key})
